@@ -180,8 +180,8 @@ func scenariosB(quick bool) ([]ScB, []gosched.Bounds) {
 		return scs, bs
 	}
 	add(one2, 3, 3)
-	add(conc, 2, 1)
 	add(conc, 1, 2)
+	add(conc, 2, 0)
 	add(b2b, 1, 1)
 	add(b2b, 2, 0)
 	add(two, 1, 2)
@@ -189,8 +189,10 @@ func scenariosB(quick bool) ([]ScB, []gosched.Bounds) {
 	add(same, 3, 3)
 	add(sameB2B, 3, 3)
 	add(apart, 2, 2)
-	add(ScB{Name: "four-polls-two-keys-busy(S1,S2,S1,S2)", Clients: 1, Polls: []string{"S1", "S2", "S1", "S2"}, MaxTry: 2, Timeout: 2 * time.Second}, 1, 1)
-	add(ScB{Name: "two-polls-2-clients(S1,S2)", Clients: 2, Polls: []string{"S1", "S2"}, Sleep: true, MaxTry: 2, Timeout: 3 * time.Second}, 1, 1)
+	add(ScB{Name: "four-polls-two-keys-busy(S1,S2,S1,S2)", Clients: 1, Polls: []string{"S1", "S2", "S1", "S2"}, MaxTry: 2, Timeout: 2 * time.Second}, 0, 1)
+	add(ScB{Name: "four-polls-two-keys-busy(S1,S2,S1,S2)", Clients: 1, Polls: []string{"S1", "S2", "S1", "S2"}, MaxTry: 2, Timeout: 2 * time.Second}, 1, 0)
+	add(ScB{Name: "two-polls-2-clients(S1,S2)", Clients: 2, Polls: []string{"S1", "S2"}, Sleep: true, MaxTry: 2, Timeout: 3 * time.Second}, 0, 1)
+	add(ScB{Name: "two-polls-2-clients(S1,S2)", Clients: 2, Polls: []string{"S1", "S2"}, Sleep: true, MaxTry: 2, Timeout: 3 * time.Second}, 1, 0)
 	return scs, bs
 }
 
